@@ -21,7 +21,7 @@ IntV32(w) == [t |-> "i", w |-> Lo32(w), h |-> TRUE]
 PtrV(b, o) == [t |-> "p", b |-> b, o |-> o]
 FpV(x) == [t |-> "f", x |-> x]
 LabV(f, l) == [t |-> "l", f |-> f, l |-> l]
-LDiffV(f, a, b) == [t |-> "ld", f |-> f, a |-> a, b |-> b]   \* address of label a minus address of label b (two-label lref item)
+LDiffV(f, a, b, d) == [t |-> "ld", f |-> f, a |-> a, b |-> b, d |-> d]   \* address of label a - address of label b + d (two-label lref item)
 (* value of an integer variable after a 1- or 2-byte store through its address: only the low n bytes are defined.  MIR.md calls it a    *)
 (* "variable treated as 8-bit (16-bit) value"; the engines disagree on the other bytes (the interpreter and -O0/-O1 code keep the old  *)
 (* ones, -O2 code assigns the extension of the stored value), so they are undefined here; after a 4-byte store the h flag says the same *)
@@ -63,8 +63,8 @@ LoadMem(mem, ty, b, o) ==
                  THEN FnV(cs[1].f)                                    \* ref data item naming a function
                  ELSE IF ty \in {"i64", "u64", "p"} /\ \A i \in 1..n : cs[i].k = "l" /\ cs[i].i = i /\ cs[i].f = cs[1].f /\ cs[i].l = cs[1].l
                  THEN LabV(cs[1].f, cs[1].l)                          \* one-label lref item
-                 ELSE IF ty \in {"i64", "u64"} /\ \A i \in 1..n : cs[i].k = "ld" /\ cs[i].i = i /\ cs[i].f = cs[1].f /\ cs[i].a = cs[1].a /\ cs[i].b = cs[1].b
-                 THEN LDiffV(cs[1].f, cs[1].a, cs[1].b)               \* two-label lref item
+                 ELSE IF ty \in {"i64", "u64"} /\ \A i \in 1..n : cs[i].k = "ld" /\ cs[i].i = i /\ cs[i].f = cs[1].f /\ cs[i].a = cs[1].a /\ cs[i].b = cs[1].b /\ cs[i].d = cs[1].d
+                 THEN LDiffV(cs[1].f, cs[1].a, cs[1].b, cs[1].d)               \* two-label lref item
                  ELSE Bad("integer load of undefined, fp or partial pointer bytes")
 StoreMem(mem, ty, b, o, v) ==       \* returns [ok, m, why]
   LET n == TySize(ty) IN
@@ -257,10 +257,12 @@ Step ==
                  THEN IF FitsNat(b.w) /\ ToNat(b.w) < 4096
                       THEN WriteDst(I.d, PtrV(a.b, IF op = "add" THEN a.o + ToNat(b.w) ELSE a.o - ToNat(b.w)), nxt, NoOvf)
                       ELSE GoUndef("pointer arithmetic out of modelled range")
-            ELSE IF op = "add" /\ a.t = "l" /\ b.t = "ld" /\ a.f = b.f /\ a.l = b.b     \* label + (label2 - label) = label2
+            ELSE IF op = "add" /\ a.t = "l" /\ b.t = "ld" /\ a.f = b.f /\ a.l = b.b /\ b.d = 0     \* label + (label2 - label) = label2
                  THEN WriteDst(I.d, LabV(a.f, b.a), nxt, NoOvf)
-            ELSE IF op = "add" /\ b.t = "l" /\ a.t = "ld" /\ a.f = b.f /\ b.l = a.b
+            ELSE IF op = "add" /\ b.t = "l" /\ a.t = "ld" /\ a.f = b.f /\ b.l = a.b /\ a.d = 0
                  THEN WriteDst(I.d, LabV(b.f, a.a), nxt, NoOvf)
+            ELSE IF op \in {"add", "sub"} /\ a.t = "ld" /\ b.t = "i" /\ ~b.h /\ FitsNat(b.w) /\ ToNat(b.w) < 4096   \* a biased label distance
+                 THEN WriteDst(I.d, LDiffV(a.f, a.a, a.b, IF op = "add" THEN a.d + ToNat(b.w) ELSE a.d - ToNat(b.w)), nxt, NoOvf)
             ELSE IF a.t # "i" \/ b.t # "i" THEN GoUndef("pointer used as a number")
             ELSE IF op = "and" /\ (a.h \/ b.h) /\ (HiZero(a) \/ HiZero(b))      \* the mask clears the undefined half
                  THEN WriteDst(I.d, IntV(And64(a.w, b.w)), nxt, NoOvf)
